@@ -54,6 +54,11 @@ fn compile_isolated_once(source: &str, limit_s: u64) -> Value {
 }
 
 fn compile_child_once(mode: &str, source: &str, limit_s: u64) -> Value {
+    compile_child_env(mode, source, limit_s, false)
+}
+
+/// second_module: the child compiles pvh::alpha::PREMODULE first, through the same Compiler (PVH_PREMODULE)
+fn compile_child_env(mode: &str, source: &str, limit_s: u64, second_module: bool) -> Value {
     // the running image, even if the file was replaced by a rebuild meanwhile (`current_exe()` would then name
     // a deleted file and the wrapper would fail with status 127)
     let exe = format!("/proc/{}/exe", std::process::id());
@@ -61,6 +66,7 @@ fn compile_child_once(mode: &str, source: &str, limit_s: u64) -> Value {
         .arg(limit_s.to_string())
         .arg(exe)
         .arg(mode)
+        .envs(if second_module { vec![("PVH_PREMODULE", "1")] } else { Vec::new() })
         .stdin(Stdio::piped())
         .stdout(Stdio::piped())
         .stderr(Stdio::piped())
@@ -184,6 +190,15 @@ fn run_source(source: &str) -> Value {
     run_compiled(compile_isolated(source))
 }
 
+/// the program as the SECOND module of its compilation (after pvh::alpha::PREMODULE), executed
+fn run_source_second(source: &str) -> Value {
+    let mut r = compile_child_env("compile-one", source, 20, true);
+    if r["crash"] == "timeout" {
+        r = compile_child_env("compile-one", source, 300, true);
+    }
+    run_compiled(r)
+}
+
 /// the program split over two files (see split_sources), compiled as `penne lib.pn main.pn` does and executed
 fn run_split(files: &[(String, String)]) -> Value {
     let payload = json!({"files": files.iter().map(|(n, s)| json!([n, s])).collect::<Vec<_>>()}).to_string();
@@ -256,6 +271,15 @@ fn run(args: &[String]) {
                 r["source"] = json!(src);
             }
             rs.push(r);
+        }
+        // one more variant for every PVH_SECOND_EVERY-th program: the canonical text as the second module of a compilation
+        if let Some(n) = std::env::var("PVH_SECOND_EVERY").ok().and_then(|x| x.parse::<usize>().ok()) {
+            if n > 0 && i % n == 0 {
+                let mut r = run_source_second(&canonical);
+                r["layout"] = json!(layouts.max(1) + 1);
+                r["second_module"] = json!(true);
+                rs.push(r);
+            }
         }
         // one more variant: the same program split over two files (skipped with PVH_NO_SPLIT=1)
         if std::env::var("PVH_NO_SPLIT").is_err() {
